@@ -32,7 +32,7 @@ def gen(src, tier):
                              allow_constraint_init=False)
     script = scen.gen_history(src, nsteps=(2, 4), p_reject=0.3 if source in ("every_step", "fixedpoint") else 0.0)
     sc = {"cfg": cfg, "source": source, "script": script, "eps": 1e-8,
-          "shape": src.choice("shape", [[2], [2, 2], [3]]), "key": src.randint("key", 0, 2**31 - 1)}
+          "shape": src.choice("shape", [[2], [2, 3], [3], [3, 1, 2]]), "key": src.randint("key", 0, 2**31 - 1)}
     if source in ("every_step", "fixedpoint"):
         sc["final"] = src.weighted("final", [({"kind": "overstep", "frac": src.uniform("of", 0.1, 0.9)}, 3), ({"kind": "exact_clip"}, 1)])
     if source == "fixedpoint":
